@@ -145,8 +145,8 @@ def corpus_cases(ctx, cases):
 def correspondence(ctx):
     cases = []
     corpus_cases(ctx, cases)
-    gen_listen_cases(ctx, cases, ctx.n(500, 6000))
-    gen_send_cases(ctx, cases, ctx.n(300, 4000))
+    gen_listen_cases(ctx, cases, ctx.n(500, 2500))
+    gen_send_cases(ctx, cases, ctx.n(300, 2000))
     for c in cases[:2] + cases[len(cases) // 2:len(cases) // 2 + 2]:
         ctx.sample(c[:600])
     ctx.run_cases('server', 'From DS Require Import Model.SrvHandler Corr.SrvCorr.', 'scase', 'ok', cases,
